@@ -16,7 +16,7 @@
 (*     [function name, native?, line, column] innermost first.               *)
 (* Known deviations of otto are the branches D("D19_...") here and in        *)
 (* ES5Core.                                                                  *)
-EXTENDS NumText, TLC
+EXTENDS NumText, TLC, FiniteSets
 CONSTANT Dev
 D(x) == x \in Dev
 
@@ -41,37 +41,50 @@ IsLineEnd(u, m) == IF m.lfOnly THEN u = 10 ELSE u \in {10, 13, 8232, 8233}
 (* width of a code unit: 1, or its share of the UTF-8 encoding (a surrogate pair is 4 bytes) *)
 ULen(u, m) == IF ~m.bytes \/ u < 128 THEN 1 ELSE IF u < 2048 THEN 2 ELSE IF u >= 55296 /\ u <= 57343 THEN 2 ELSE 3
 
-RECURSIVE UnitsBefore(_, _, _, _)
-UnitsBefore(text, i, n, m) ==          \* width of text[i .. n]
-    IF i > n THEN 0 ELSE ULen(text[i], m) + UnitsBefore(text, i + 1, n, m)
+(* what a position lookup needs to know about a text, computed once per text: the       *)
+(* indexes of the characters that end a line (of CR LF the LF), and of the characters    *)
+(* wider than one unit                                                                   *)(* (sequences in ascending order, built eagerly: TLC would re-evaluate a set comprehension at every use) *)
+TextInfo(text, m) ==
+    LET idx == [i \in 1..Len(text) |-> i]
+    IN  [len  |-> Len(text),
+         ends |-> SelectSeq(idx, LAMBDA i : IsLineEnd(text[i], m) /\ ~(text[i] = 13 /\ ~m.lfOnly /\ i < Len(text) /\ text[i + 1] = 10)),
+         wide |-> IF m.bytes THEN SelectSeq(idx, LAMBDA i : text[i] >= 128) ELSE <<>>,
+         text |-> text]
 
-(* walk the text up to the 0-based unit offset b: line number and the unit offset just after the last terminator *)
-RECURSIVE Scan(_, _, _, _, _, _, _)
-Scan(text, i, u, line, eol, b, m) ==
-    IF i > Len(text) THEN [line |-> line, col |-> b - eol + 1, valid |-> m.eof /\ b = u]
-    ELSE IF u + ULen(text[i], m) > b THEN [line |-> line, col |-> b - eol + 1, valid |-> TRUE]
-    ELSE LET w == ULen(text[i], m)
-             isEnd == IsLineEnd(text[i], m) /\ ~(text[i] = 13 /\ ~m.lfOnly /\ i < Len(text) /\ text[i + 1] = 10)
-         IN  Scan(text, i + 1, u + w, IF isEnd THEN line + 1 ELSE line, IF isEnd THEN u + w ELSE eol, b, m)
+RECURSIVE SumWidths(_, _, _, _, _)
+SumWidths(wide, k, i, text, m) ==      \* extra units of the wide characters with index < i
+    IF k > Len(wide) \/ wide[k] >= i THEN 0 ELSE (ULen(text[wide[k]], m) - 1) + SumWidths(wide, k + 1, i, text, m)
+(* 0-based unit offset of character index i (1-based; i = len + 1: the end of the text) *)
+UnitOff(inf, i, m) == (i - 1) + SumWidths(inf.wide, 1, i, inf.text, m)
 
 Unknown == [line |-> 0, col |-> 0]
-(* position of the offset off (1-based, code units, measured in files[of]) looked up in files[file] *)
+(* position of the offset off (1-based, code units, measured in the text `from`) looked up in the text `in`: *)
+(* the line is 1 + the number of line ends wholly before it, the column counts from the last of them        *)
+LineColIn(from, in, off, m) ==
+    IF off < 1 THEN Unknown
+    ELSE LET b == UnitOff(from, off, m)
+             total == UnitOff(in, in.len + 1, m)
+             before == SelectSeq(in.ends, LAMBDA e : UnitOff(in, e + 1, m) <= b)
+             eol == IF before = <<>> THEN 0 ELSE UnitOff(in, before[Len(before)] + 1, m)
+         IN  IF b < total \/ (m.eof /\ b = total) THEN [line |-> 1 + Len(before), col |-> b - eol + 1] ELSE Unknown
+
 LineCol(files, of, file, off, kind) ==
     LET m == Mode(kind)
     IN  IF off < 1 \/ of < 1 \/ file < 1 THEN Unknown
-        ELSE LET b == IF m.bytes THEN UnitsBefore(files[of], 1, off - 1, m) ELSE off - 1
-                 r == Scan(files[file], 1, 0, 1, 0, b, m)
-             IN  IF r.valid THEN [line |-> r.line, col |-> r.col] ELSE Unknown
+        ELSE LineColIn(TextInfo(files[of], m), TextInfo(files[file], m), off, m)
 
 (* a captured trace as the API shows it: innermost first *)
 (* src: 1 = the position is in the program text (the frame carries the program's file   *)
 (* name), 0 = in another source text (eval code), or there is none.  named = FALSE: the *)
 (* program was given to Run as a string and has no name of its own.                     *)
-ShowFrame(files, f, named) ==
+ShowFrame(infos, f, named, m) ==
     IF f.nat THEN [fn |-> <<>>, nat |-> TRUE, src |-> 0, line |-> 0, col |-> 0]
-    ELSE LET p == LineCol(files, f.of, f.file, f.off, "runtime")
+    ELSE LET p == IF f.off < 1 \/ f.of < 1 \/ f.file < 1 THEN Unknown ELSE LineColIn(infos[f.of], infos[f.file], f.off, m)
          IN  [fn |-> f.fn, nat |-> FALSE, src |-> IF named /\ f.file = 1 /\ p # Unknown THEN 1 ELSE 0, line |-> p.line, col |-> p.col]
-ShowTrace(files, tr, named) == [i \in 1..Len(tr) |-> ShowFrame(files, tr[i], named)]
+ShowTrace(files, tr, named) ==
+    LET m == Mode("runtime")
+        infos == <<>> \o [k \in 1..Len(files) |-> TextInfo(files[k], m)]         \* \o : evaluated once
+    IN  [i \in 1..Len(tr) |-> ShowFrame(infos, tr[i], named, m)]
 
 -----------------------------------------------------------------------------
 (* 15.11.4.4 applied to the thrown value: the text of the error Run returns.   *)
